@@ -28,6 +28,10 @@ func runC04(c *Ctx) {
 	r04_9(c, "R04.9")
 	r04_10(c, "R04.10")
 	r04_11(c, "R04.11")
+	// convergence after an aborted run: a placeholder or partial file left
+	// behind differs from the source in size or mtime, and the differ must see
+	// that whatever content comparison is configured (shared with C02)
+	r02_1(c, "R04.12")
 }
 
 // transferFuncs: non-test functions of packages fsutil and copy.
@@ -298,7 +302,9 @@ func r04_3(c *Ctx, rule string) {
 				hit, und := c.ReachableUnder(dlit, map[string]bool{cellKey: false}, nil, func(in ssa.Instruction) bool { return c.sendsPacket(in, "PACKET_ERR") })
 				c.R.Check(!und && hit != nil && cellKey != "", rule, con+"/sends-on-error", c.P.Pos(dlit.Pos()), "with a non-nil result the deferred function sends PACKET_ERR", "the deferred function does not send PACKET_ERR when the goroutine's result is non-nil")
 				// and the named result really is what the goroutine returns
-				c.R.Check(lit.Signature.Results().Len() == 1 && lit.Signature.Results().At(0).Name() != "", rule, con+"/named-result", c.P.Pos(lit.Pos()), "the goroutine has a named error result the defer observes", "the diff goroutine has no named result for the defer to observe")
+				// (of the function that installs the defer: the goroutine body itself or the method it was moved to)
+				dsig := def.Parent().Signature
+				c.R.Check(dsig.Results().Len() == 1 && dsig.Results().At(0).Name() != "", rule, con+"/named-result", c.P.Pos(lit.Pos()), "the goroutine has a named error result the defer observes", "the diff goroutine has no named result for the defer to observe")
 			}
 		}
 	}
@@ -497,7 +503,9 @@ func r04_4recv(c *Ctx, rule string) {
 			ex := c.explorer(loop)
 			ex.From = call
 			ex.Assume = map[string]bool{"(" + k + "==nil)": false}
-			ex.Barrier = func(in ssa.Instruction, st *eng.State) bool { return in != ssa.Instruction(call) && c.P.IsCallTo(in, "(fsutil.Stream).RecvMsg") }
+			ex.Barrier = func(in ssa.Instruction, st *eng.State) bool {
+				return in != ssa.Instruction(call) && c.P.IsCallTo(in, "(fsutil.Stream).RecvMsg")
+			}
 			ex.Target = isSucc(ex)
 			ex.StopAtTarget = true
 			hh := ex.Run()
@@ -556,7 +564,7 @@ func (c *Ctx) bestEffortSend(call ssa.CallInstruction) (bool, string) {
 	if c.sendsPacket(call, "PACKET_ERR") {
 		return true, "SendMsg(ERR) is best effort: the original error is what is returned"
 	}
-	if c.sendsPacket(call, "PACKET_FIN") && strings.HasPrefix(c.name(call.Parent()), "fsutil.(*receiver).run$") {
+	if c.sendsPacket(call, "PACKET_FIN") && strings.HasPrefix(c.name(c.owner(call)), "fsutil.(*receiver).run$") {
 		return true, "receiver SendMsg(FIN): a failure shows up as the following RecvMsg error"
 	}
 	return false, ""
@@ -922,9 +930,9 @@ var blockingPrimitives = map[string]bool{
 }
 
 var blockingAllowed = map[string]string{
-	"fsutil.(*sender).run/(*golang.org/x/sync/errgroup.Group).Wait":    "joins the sender's goroutines, all of which observe the group context (R04.1, R04.10)",
-	"fsutil.(*receiver).run/(*golang.org/x/sync/errgroup.Group).Wait":  "joins the receiver's goroutines",
-	"fsutil.doubleWalkDiff/(*golang.org/x/sync/errgroup.Group).Wait":   "joins the two walkers and the comparing loop",
+	"fsutil.(*sender).run/(*golang.org/x/sync/errgroup.Group).Wait":      "joins the sender's goroutines, all of which observe the group context (R04.1, R04.10)",
+	"fsutil.(*receiver).run/(*golang.org/x/sync/errgroup.Group).Wait":    "joins the receiver's goroutines",
+	"fsutil.doubleWalkDiff/(*golang.org/x/sync/errgroup.Group).Wait":     "joins the two walkers and the comparing loop",
 	"fsutil.(*DiskWriter).Wait/(*golang.org/x/sync/errgroup.Group).Wait": "joins the asynchronous writers; called by the diff goroutine only after the diff ended",
 }
 
